@@ -89,6 +89,15 @@ where
             / T::from(6.0).expect("can convert");
         debug_assert!(out.is_finite(), "value must be finite");
         self.filts.push(out);
+
+        // only the two most recent values of each stage are ever read
+        if self.l0s.len() > 2 {
+            self.l0s.remove(0);
+            self.l1s.remove(0);
+            self.l2s.remove(0);
+            self.l3s.remove(0);
+            self.filts.remove(0);
+        }
     }
 
     fn last(&self) -> Option<T> {
